@@ -324,6 +324,18 @@ func challengeParamsKeyedLowerCase(c *core.Ctx, rule string) {
 						}
 					}
 				}
+				if !isF {
+					// a local map that becomes the challenge's params (`params := make(…); …; &authHeader{params: params}`)
+					if mk, ok := facts.ResolveFree(mu.Map).(*ssa.MakeMap); ok && mk.Referrers() != nil {
+						for _, ref := range *mk.Referrers() {
+							if st, ok := ref.(*ssa.Store); ok && st.Val == ssa.Value(mk) {
+								if _, f2, ok := facts.FieldOf(st.Addr); ok {
+									fld, isF = f2, true
+								}
+							}
+						}
+					}
+				}
 				if !isF || fld != "params" {
 					continue
 				}
